@@ -629,6 +629,33 @@ func c04Run(t *testing.T, c *evid.Collector) {
 		}
 	}
 
+	// ---- keys that were delete-marked and then written again (memory backend, versioning enabled):
+	// live keys like any other, wherever in the order they lie - the last ones in particular
+	if evid.Shard() == 0 {
+		for _, kk := range kindsFromEnv([]backends.Kind{backends.Mem}) {
+			for _, set := range [][2][]string{
+				{{"a", "logs/1", "logs/2", "logs/3", "m"}, {"logs/2", "logs/3", "m"}},
+				{{"a", "logs/1", "logs/2", "logs/3", "m"}, {"m", "zz-stays-deleted"}},
+				{{"a", "b", "c", "d"}, {"a", "d", "e"}},
+				{{"p/x", "p/y", "q"}, {"p/x", "p/y", "q", "r"}},
+			} {
+				for _, pd := range [][2]string{{"", ""}, {"", "/"}, {"logs/", "/"}, {"p/", ""}} {
+					for _, api := range []string{"v1", "v2"} {
+						for mk := 1; mk <= 5; mk++ {
+							cs := c04Case{Backend: kk, Keys: set[0], Marked: set[1], Prefix: pd[0], Delim: pd[1], MaxKeys: mk, API: api}
+							raw, _ := json.Marshal(cs)
+							ds, err := c04Replay("walk", raw)
+							if err != nil {
+								panic("harness: " + err.Error())
+							}
+							record("walk", cs, ds, 2, len(set[0]), false, "fixed-rewritten-after-delete")
+						}
+					}
+				}
+			}
+		}
+	}
+
 	// ---- ... and the paginating backend pages them by the size its answer names when the request names none
 	if evid.Shard() == 0 {
 		st := c04ManyStack(backends.Mem)
